@@ -368,7 +368,7 @@ class Matcher:
                 ok = I.branch(nx == 10) if not isinstance(nx, int) else nx == 10
             return cont(k, caps) if ok else None
         if kind == 'rep':
-            lo, hi, lazy = node.lo, node.hi, node.lazy
+            lo, hi, lazy = node.lo, node.hi, (node.lazy or getattr(self, 'all_lazy', False))
 
             def rep(count, kk, cc):
                 def more():
@@ -504,6 +504,27 @@ def _match_end(I, a, ci, dt):
 def _match_as_str(I, a, ci, dt):
     m = I.deref_value(a[0]) if isinstance(a[0], Ref) else a[0]
     return sub(m.f[0], m.f[1], m.f[2])
+
+
+@reg('Match::is_empty')
+def _match_is_empty(I, a, ci, dt):
+    m = I.deref_value(a[0]) if isinstance(a[0], Ref) else a[0]
+    return m.f[1] == m.f[2]
+
+
+@reg('Regex::shortest_match')
+def _regex_shortest_match(I, a, ci, dt):
+    """End of the earliest-ending match from the leftmost start: every repetition is run lazily (exact for
+    patterns without alternation between branches of different length; a disagreement with the regex crate
+    shows up in the per-run validation against the real binary)."""
+    m = _matcher_of(I, a[0])
+    m.I = I
+    m.all_lazy = True
+    try:
+        r = m.search(as_sstr(I, a[1]))
+    finally:
+        m.all_lazy = False
+    return NONE if r is None else Some(r[0][1])
 
 
 @reg('Match::len')
